@@ -49,9 +49,12 @@ def relabel_gc(gc, bij):
     return gc2, m
 
 
+NODE_LEVEL = [n for n in WRAPPERS if 'individual_based' in n or 'pair_based' in n]
+
+
 @st.composite
 def ode_case(draw):
-    c = draw(ac.analytic_case(names=WRAPPERS, nmax=10, labels=('int',)))
+    c = draw(ac.analytic_case(names=(NODE_LEVEL if draw(st.integers(0, 3)) == 0 else WRAPPERS), nmax=10, labels=('int',)))
     c['bij'] = draw(bijection(c['gc']['nodes']))
     return c
 
@@ -103,6 +106,39 @@ def prop_ode(case):
                                      '%s: output %d differs by %.3g between labels %r and the relabelled/reordered copy %r (N=%d, mode %s)'
                                      % (name, k, d, nodes1[:5], nodes2[:5], int(N), case['mode'])))
                 break
+    # node-level models also take an explicit nodelist: its order must not matter either
+    if ('individual_based' in name or 'pair_based' in name) and not fails:
+        c3 = dict(case)
+        c3['nodelist_perm'] = list(case['bij']['order'])
+        inv = {j: i for i, j in enumerate(c3['nodelist_perm'])}
+        rows = [inv[j] for j in range(int(N))]          # row of node j in the explicit-nodelist output
+        for rfd in (False, True):
+            try:
+                with np.errstate(all='ignore'):
+                    a, _ = ac.call_entry(case, rfd, ic=ic)
+            except Exception:
+                continue
+            try:
+                with np.errstate(all='ignore'):
+                    b, _ = ac.call_entry(c3, rfd, ic=ic)
+            except Exception as ex:
+                fails.append(Failure('%s:explicit-nodelist:exception:%s' % (name, type(ex).__name__),
+                                     '%s raises %r when given nodelist=%r (order of G.nodes() is %r)' % (name, ex, c3['nodelist_perm'], list(range(int(N))))))
+                continue
+            for k, (x, y) in enumerate(zip(a, b)):
+                x, y = np.asarray(x, dtype=float), np.asarray(y, dtype=float)
+                if x.shape != y.shape:
+                    continue
+                if rfd and x.ndim == 2 and x.shape[0] == int(N) and k >= 1:
+                    y = y[rows]
+                elif rfd and x.ndim == 3 and x.shape[0] == int(N) and x.shape[1] == int(N):
+                    y = y[np.ix_(rows, rows)]
+                d = float(np.max(np.abs(x - y))) if x.size else 0.0
+                if not np.isfinite(d) or d > 1e-6 * N:
+                    fails.append(Failure('%s:depends-on-nodelist-order%s' % (name, ':full' if rfd else ''),
+                                         '%s: output %d differs by %.3g between the default nodelist and the explicit nodelist (positions) %r'
+                                         % (name, k, d, c3['nodelist_perm'])))
+                    break
     ident = all(m[u] == u for u in m)
     return Result(fails, nontrivial=not ident, classes=[e.level, 'labels=' + type(case['bij']['new'][0]).__name__])
 
@@ -256,4 +292,4 @@ def run(ctx):
     if not only or 'ode' in only:
         run_hypothesis(ctx, 'ode', ode_case(), prop_ode, 500 if quick else 15000, rounds=5)
     if not only or 'simulators' in only:
-        run_hypothesis(ctx, 'simulators', sim_case(), prop_sim, 500 if quick else 15000)
+        run_hypothesis(ctx, 'simulators', sim_case(), prop_sim, 2500 if quick else 30000)
